@@ -917,6 +917,7 @@ void MEDDLY::fbuilder_forest::setPathToBottom(int L, const minterm &m,
             unpacked_node* n = newSetNode(k, 1);
             unsigned z=0;
             addToNode(n, z, m.from(k), cv, cp);
+            if (n->isSparse()) n->shrink(z);   // nothing added if the edge is transparent
 
             F->createReducedNode(n, cv, cp);
         }
@@ -954,6 +955,7 @@ void MEDDLY::fbuilder_forest::relPathToBottom(int L, const minterm &m,
                     unpacked_node* n = newPrimedNode(k, 1);
                     unsigned z=0;
                     addToNode(n, z, m.to(k), cv, cp);
+                    if (n->isSparse()) n->shrink(z);   // nothing added if the edge is transparent
                     F->createReducedNode(n, cv, cp);
                 }
             }
@@ -967,6 +969,7 @@ void MEDDLY::fbuilder_forest::relPathToBottom(int L, const minterm &m,
                 unpacked_node* n = newUnprimedNode(k, 1);
                 unsigned z=0;
                 addToNode(n, z, m.from(k), cv, cp);
+                if (n->isSparse()) n->shrink(z);   // nothing added if the edge is transparent
                 F->createReducedNode(n, cv, cp);
             }
         } // for k
@@ -1001,6 +1004,7 @@ void MEDDLY::fbuilder_forest::relPathToBottom(int L, const minterm &m,
                 unpacked_node* np = newPrimedNode(k, 1);
                 unsigned z=0;
                 addToNode(np, z, m.to(k), cv, cp);
+                if (np->isSparse()) np->shrink(z);   // nothing added if the edge is transparent
                 F->createReducedNode(np, cv, cp);
             }
 
@@ -1019,6 +1023,7 @@ void MEDDLY::fbuilder_forest::relPathToBottom(int L, const minterm &m,
                 addToNode(nu, z, m.from(k), cv,
                     F->redirectSingleton(m.from(k), cp)
                 );
+                if (nu->isSparse()) nu->shrink(z);   // nothing added if the edge is transparent
 
                 F->createReducedNode(nu, cv, cp);
             }
